@@ -1,6 +1,11 @@
 // Contract overlay for unit `actionloop`
 //@ item Signal
 //@ item QuitManner
+//@ item Handler::new
+//@ header
+    pub fn new(events: ArcEvents, jobs: JobMap) -> (r: Handler)
+        // a fresh action: the batch it is about, no new job yet, no quit requested
+        ensures r.events.v == events.v, r.new@.len() == 0, r.quit is None, // OBL:C01+C08.handler_new.carries_the_batch_and_asks_nothing
 //@ item quit_job_task
 //@ header
 pub fn quit_job_task(job: Job, signal: Signal, grace: Duration, env: &mut JEnv)
@@ -13,7 +18,7 @@ pub fn quit_job_task(job: Job, signal: Signal, grace: Duration, env: &mut JEnv)
 #[verifier::loop_isolation(false)]
 #[verifier::allow_complex_invariants]
 pub fn worker(config: &ArcConfig, errors: ErrTx, events: EvRx, env: &mut LEnv) -> (r: Result<(), CriticalError>)
-    requires batches(old(env).log@) =~= handled(old(env).log@),
+    requires batches(old(env).log@) =~= handled(old(env).log@), old(env).created@ =~= Set::<TaskH>::empty(),
     ensures
         // every batch that throttle_collect returned was handed to the action handler exactly once, in order, and nothing else was
         batches(final(env).log@) =~= handled(final(env).log@), // OBL:C01+C02+C08.worker.each_batch_goes_to_the_handler_exactly_once
@@ -23,13 +28,15 @@ pub fn worker(config: &ArcConfig, errors: ErrTx, events: EvRx, env: &mut LEnv) -
     let ghost mut log_at_quit: Seq<LAct> = Seq::empty();
     let ghost mut jobs_at_quit: Map<Id, Job> = Map::empty();
     let ghost mut drained: Seq<(Id, Job)> = Seq::empty();
-    let ghost mut adopted: Set<TaskH> = Set::empty();      // the tasks of all jobs the handlers created so far
+    let ghost mut adopted: Set<TaskH> = Set::empty();      // the tasks of all jobs taken over so far
+    let ghost mut newjobs: Seq<(Id, (Job, TaskH))> = Seq::empty();   // the jobs the current action created
 //@ loop 0
 invariant_except_break
     quit_seen is None,
 invariant
     batches(env.log@) =~= handled(env.log@), // OBL:C01+C02+C08.worker.each_batch_goes_to_the_handler_exactly_once
     jobtasks.tasks@ =~= adopted && jobtasks.quit_tasks@ == 0, // OBL:C08.worker.job_tasks_are_all_kept_for_the_final_join
+    adopted =~= env.created@, // OBL:C08.worker.every_created_job_is_held_by_the_worker
 after:
 // (a non-isolated loop's `ensures` is neither checked nor assumed by Verus: every way out of the loop continues here)
 proof {
@@ -47,25 +54,36 @@ proof {
     // graceful: every job is stopped with the requested signal and grace and deleted, and the worker waits for all of it
     assert(forall|signal: Signal, grace: Duration| quit_seen == Some(QuitManner::Graceful { signal, grace }) ==> graceful_quit_done(log_at_quit, env.log@, drained, jobs_at_quit, adopted, signal, grace)); // OBL:C08.worker.graceful_quit_stops_every_job_and_waits_for_all
 }
-//@ loop 1
+//@ loop over `action.new`
+let ghost ad0 = adopted; let ghost jm0 = jobs.m@;
 invariant
-    0 <= vx_it0.pos@ <= vx_it0.v@.len(),
+    0 <= $IT.pos@ <= $IT.v@.len(), $IT.v@ == newjobs,
     jobtasks.tasks@ =~= adopted && jobtasks.quit_tasks@ == 0, // OBL:C08.worker.job_tasks_are_all_kept_for_the_final_join
+    adopted =~= ad0.union(tasks_of(newjobs, $IT.pos@)), // OBL:C08.worker.every_created_job_is_held_by_the_worker
+    forall|i: int| 0 <= i < $IT.pos@ ==> jobs.m@.contains_key((#[trigger] newjobs[i]).0) && jobs.m@[newjobs[i].0] == newjobs[i].1.0, // OBL:C08.worker.every_created_job_is_held_by_the_worker
 body_end:
 proof { adopted = adopted.insert(task); }
-//@ loop 2
-let ghost dr = vx_it1.v@;
+//@ loop over `jobs.drain()`
+let ghost dr = $IT.v@;
 proof { drained = dr; }
 invariant
-    0 <= vx_it1.pos@ <= vx_it1.v@.len(), vx_it1.v@ == dr,
-    env.log@ =~= log_at_quit + spawns(dr, vx_it1.pos@, signal, grace), // OBL:C08.worker.graceful_quit_stops_every_job_and_waits_for_all
-    tasks.quit_tasks@ == vx_it1.pos@, tasks.tasks@ =~= Set::<TaskH>::empty(),
+    0 <= $IT.pos@ <= $IT.v@.len(), $IT.v@ == dr,
+    env.log@ =~= log_at_quit + spawns(dr, $IT.pos@, signal, grace), // OBL:C08.worker.graceful_quit_stops_every_job_and_waits_for_all
+    tasks.quit_tasks@ == $IT.pos@, tasks.tasks@ =~= Set::<TaskH>::empty(),
     env.closed@ == false || true,
 ensures
-    vx_it1.pos@ == vx_it1.v@.len(),
-//@ loop 3
+    $IT.pos@ == $IT.v@.len(),
+//@ loop over `gc`
 invariant
-    0 <= vx_it2.pos@ <= vx_it2.v@.len(),
+    0 <= $IT.pos@ <= $IT.v@.len(),
+//@ hint after `ActionReturn::Async(action) => (action), };`
+proof { newjobs = action.new@; }
 //@ hint after `if let Some(manner) = action.quit {`
-proof { quit_seen = Some(manner); log_at_quit = env.log@; jobs_at_quit = jobs.m@; }
+proof {
+    quit_seen = Some(manner); log_at_quit = env.log@; jobs_at_quit = jobs.m@;
+    // a quit requested in the very action that created a job covers that job too: it is in the map (so it is stopped and deleted) and its task
+    // is in the set that is joined (or aborted when the set is dropped)
+    assert(adopted =~= env.created@); // OBL:C08.worker.every_created_job_is_held_by_the_worker
+    assert(forall|i: int| 0 <= i < newjobs.len() ==> jobs.m@.contains_key((#[trigger] newjobs[i]).0) && jobs.m@[newjobs[i].0] == newjobs[i].1.0); // OBL:C08.worker.every_created_job_is_held_by_the_worker
+}
 //@ end
